@@ -1036,6 +1036,90 @@ func runC10(c *Ctx) {
 	c01R1(c)
 	c15R2(c, "C10.R1")
 	c10R5(c)
+	c10R6(c)
+}
+
+// c10R6: a tenant's verifier is built from that tenant's own loaded
+// configuration and nothing else (a tenant that inherits the listener's default
+// key accepts tokens that were not signed for it), and the default verifier is
+// not built from tenant configuration.
+func c10R6(c *Ctx) {
+	p := c.P
+	c.floor("C10.R6", 2)
+	fn := p.Func("server", "NewServer")
+	if fn == nil {
+		c.fail("C10.R6", "anchor/server.NewServer", token.NoPos, "not found")
+		return
+	}
+	conf := fn.Params[0]
+	rootsOf := func(v ssa.Value) []string {
+		roots := map[string]bool{}
+		confRoots(v, conf, roots, map[ssa.Value]bool{}, 0)
+		var got []string
+		for r := range roots {
+			if strings.HasSuffix(r, ".Auth") || strings.HasSuffix(r, ".Tenants") {
+				got = append(got, r)
+			}
+		}
+		sort.Strings(got)
+		return got
+	}
+	newVerifierArg := func(v ssa.Value) (ssa.Value, bool) {
+		v = strip(v)
+		if mi, ok := v.(*ssa.MakeInterface); ok {
+			v = strip(mi.X)
+		}
+		cl, ok := v.(*ssa.Call)
+		if !ok || !strings.HasSuffix(commonName(&cl.Call), "pkg/auth.NewJWTVerifier") {
+			return nil, false
+		}
+		return cl.Call.Args[0], true
+	}
+	nTen := 0
+	allInstrs(fn, func(i ssa.Instruction) {
+		switch x := i.(type) {
+		case *ssa.MapUpdate:
+			arg, ok := newVerifierArg(x.Value)
+			if !ok {
+				return
+			}
+			nTen++
+			got := rootsOf(arg)
+			good := len(got) == 1 && strings.HasSuffix(got[0], ".Tenants")
+			c.check(good, "C10.R6", "wiring/tenant-verifier-config", x.Pos(), "a tenant's verifier is built from that tenant's own configuration only",
+				fmt.Sprintf("a tenant's verifier is built from %v: keys or requirements of another configuration (the listener's default) are mixed into it, so tokens not signed by the tenant's key are accepted under the tenant", got))
+		case *ssa.Call:
+			if !strings.HasSuffix(commonName(&x.Call), "pkg/auth.NewMultiTenantVerifier") {
+				return
+			}
+			arg, ok := newVerifierArg(x.Call.Args[0])
+			if !ok {
+				// the default verifier may come through a local: follow one spill
+				if u, isU := strip(x.Call.Args[0]).(*ssa.UnOp); isU {
+					if al, isA := u.X.(*ssa.Alloc); isA {
+						if sv, _ := singleStore(al); sv != nil {
+							arg, ok = newVerifierArg(sv)
+						}
+					}
+				}
+			}
+			if !ok {
+				return
+			}
+			got := rootsOf(arg)
+			tenant := false
+			for _, r := range got {
+				if strings.HasSuffix(r, ".Tenants") {
+					tenant = true
+				}
+			}
+			c.check(!tenant && len(got) == 1, "C10.R6", "wiring/default-verifier-config["+strings.Join(got, "+")+"]", x.Pos(), "a port's default verifier is built from that port's own auth configuration only",
+				fmt.Sprintf("a default verifier is built from %v", got))
+		}
+	})
+	if nTen == 0 {
+		c.fail("C10.R6", "wiring/tenant-verifier-config", fn.Pos(), "no per-tenant verifier construction found")
+	}
 }
 
 // c10R5: the claims a token is built from are private to the verification
